@@ -232,6 +232,9 @@ Vars(c) ==
            \cup (IF c.min >= 1 THEN {V("min-1", Run(c.cls, c.min - 1))} ELSE {})
            \cup {V("first=" \o ch, WithFirst(t, ch)) : ch \in Foreign(c.cls)}
            \cup {V("last=" \o ch, WithLast(t, ch)) : ch \in Foreign(c.cls)}
+           \* a number one digit too long whose value is small (leading zeros): a check of the value instead of the text
+           \cup (IF c.cls = "n" /\ c.max >= 2
+                 THEN {V("max+1.lead0", [i \in 1..(c.max + 1) |-> IF i <= c.max THEN "0" ELSE "7"])} ELSE {})
            \cup (IF c.cls = "x" /\ Len(t) >= 3
                  THEN {V("mid=" \o ch, [t EXCEPT ![Mid(t)] = ch]) : ch \in {" ", ":", "/", ","}} ELSE {})
     [] c.k = "lit"   -> {V("lit-missing", <<>>), V("lit-wrong", <<"X">>), V("lit-doubled", <<c.ch, c.ch>>)}
